@@ -21,7 +21,7 @@ Section Routing.
   (* Python results[slice(s, e)] with s <= e *)
   Definition slice_of (l : list R) (s e : nat) : list R := firstn (e - s) (skipn s l).
 
-  (* the inner loop "for tape_idx, tape in enumerate(tapes)" with the running variable start:
+  (* the inner loop "for tape_idx, tape in enumerate(tapes)" with the running counter `start`:
      execution_tapes.extend(new_tapes); fns.append(fn); slices.append(slice(start, end)) *)
   Fixpoint step_loop (f : transform) (tapes : list T) (start : nat)
     : list T * list ((list R -> R) * (nat * nat)) :=
